@@ -3,7 +3,7 @@
   along any navigation path. `call_snd`: the invariant `Snd` is preserved by every public API call
   whose target operation satisfies `Pres`.
 -/
-import Stef.Proofs.ApiLeaf
+import Stef.Proofs.ApiCopy
 
 set_option linter.unusedSimpArgs false
 
@@ -38,7 +38,7 @@ theorem applyAt_pres (C : Ctx) (f : AS → R (AS × Up))
             simp only [hd, hr, bind, Except.bind, Bool.false_eq_true, if_false, Except.ok.injEq, Prod.mk.injEq, setNth] at h
             obtain ⟨rfl, rfl⟩ := h
             have ih := applyAt_pres C f hf rest c c' uc (by simpa using hd) hr
-            exact pres_field C n m p false fs i c c' uc hnil ih (by simpa [isDictNode_struct] using hnd)
+            exact pres_field C n m p false fs i c c' uc hnil ih (by simp)
   | .alt k :: rest, .oneof n t as, w', u, _, h => by
     simp only [applyAt] at h
     split at h
@@ -113,20 +113,20 @@ theorem applyAt_pres (C : Ctx) (f : AS → R (AS × Up))
   | .val _ :: _, .prim _, _, _, _, h | .val _ :: _, .nil, _, _, _, h | .val _ :: _, .struct .., _, _, _, h
   | .val _ :: _, .oneof .., _, _, _, h | .val _ :: _, .arr .., _, _, _, h => by simp [applyAt] at h
 
-/-! ## every call that does not go through `copy<T>` -/
+/-! ## every call -/
 
 def Op.isCopy : Op → Bool
   | .copyFrom _ => true
   | _ => false
 
-theorem applyOp_pres (C : Ctx) (op : Op) (hb : op.isCopy = false) (w w' : AS) (u : Up) (hnd : C.isDictNode w = false)
+theorem applyOp_pres (C : Ctx) (op : Op) (w w' : AS) (u : Up) (hnd : C.isDictNode w = false)
     (h : applyOp C op w = .ok (w', u)) : Pres C w w' u := by
   cases op with
   | setPrim i v => exact setPrim_pres C i v w w' u hnd h
   | unset i => exact unset_pres C i w w' u hnd h
   | setPresent i => exact setPresent_pres C i w w' u hnd h
   | setObj i v => exact setObj_pres C i v w w' u hnd h
-  | copyFrom src => simp [Op.isCopy] at hb
+  | copyFrom src => exact copyFrom_pres C src w w' u h
   | setType k => exact setType_pres C k w w' u h
   | setAlt k v => exact setAlt_pres C k v w w' u h
   | ensureLen n => exact ensureLen_pres C n w w' u h
@@ -137,10 +137,11 @@ theorem applyOp_pres (C : Ctx) (op : Op) (hb : op.isCopy = false) (w w' : AS) (u
   | setValue i v => exact setValue_pres C i v w w' u h
   | appendKV k v => exact appendKV_pres C k v w w' u h
 
-/-- **call_snd**: a public API call (navigation path + method, any arguments) on a record whose
-    marks are sound against the reader's value leaves them sound. -/
-theorem call_snd (C : Ctx) (path : List Step) (op : Op) (hb : op.isCopy = false) (w w' : AS) (R : Option St)
-    (hnd : C.isDictNode w = false) (h : call C path op w = .ok w') (hs : Snd C w R) : Snd C w' R := by
+/-- **call_snd**: a public API call (navigation path + method, any arguments, CopyFrom included) on a
+    record whose marks are sound against the reader's value leaves them sound (`ℓ = false`; with
+    `ℓ = true`: up-closed marks stay up-closed). -/
+theorem call_sndG (C : Ctx) (ℓ : Bool) (path : List Step) (op : Op) (w w' : AS) (R : Option St)
+    (hnd : C.isDictNode w = false) (h : call C path op w = .ok w') (hs : SndG C ℓ w R) : SndG C ℓ w' R := by
   unfold call at h
   cases hr : applyAt C (applyOp C op) path w with
   | error e => simp [hr, Except.map] at h
@@ -148,6 +149,10 @@ theorem call_snd (C : Ctx) (path : List Step) (op : Op) (hb : op.isCopy = false)
     obtain ⟨w1, u⟩ := r
     simp only [hr, Except.map, Except.ok.injEq] at h
     subst h
-    exact (applyAt_pres C (applyOp C op) (fun a a' ua hnd ha => applyOp_pres C op hb a a' ua hnd ha) path w w1 u hnd hr).snd R hs
+    exact (applyAt_pres C (applyOp C op) (fun a a' ua hnd ha => applyOp_pres C op a a' ua hnd ha) path w w1 u hnd hr).snd ℓ R hs
+
+theorem call_snd (C : Ctx) (path : List Step) (op : Op) (w w' : AS) (R : Option St)
+    (hnd : C.isDictNode w = false) (h : call C path op w = .ok w') (hs : Snd C w R) : Snd C w' R :=
+  call_sndG C false path op w w' R hnd h hs
 
 end Stef.Api
